@@ -358,3 +358,18 @@ package pickle
 //@   loop 4: invariant e != nil && e.memo != nil && (comparable(x) ==> has(e.memo, x))
 //@   loop 5: invariant e != nil && e.memo != nil && (comparable(x) ==> has(e.memo, x))
 //@   loop 6: invariant e != nil && e.memo != nil && (comparable(x) ==> has(e.memo, x))
+
+// ---------------------------------------------------------------- C07: memo ids are positional over a session
+// Memo ids are implicit: the n-th memoized value has id n on both sides, for as long as an Encoder
+// and the Decoder reading it live. Encode therefore keeps its memo (the same map, only growing)
+// from one value to the next - as Decode keeps the decoder's - and its deferred function touches
+// nothing but the error result.
+//@ func (*pickle.Encoder).Encode$1
+//@   ensures catches-errors: (recovered() != nil && istype(recovered(), "pickle.failure")) ==> err == recovered()
+//@   ensures leaves-success: recovered() == nil ==> err == old(err)
+//@   modifies err
+//@ func (*pickle.Encoder).Encode
+//@   requires e != nil && e.memo != nil
+//@   ensures  keeps-its-memo: e.memo == old(e.memo)
+//@   ensures  memo-only-grows: forall k: value :: old(has(e.memo, k)) ==> has(e.memo, k)
+//@   modifies heap, olen, obytes
